@@ -162,6 +162,23 @@ func genSched(tier string, seed uint64) {
 			emit("sched cbor %s %s 0", hx, schedStr(c))
 		}
 	}
+	for _, d := range []struct{ format, hex string }{{"json", "5b312c747275655d"}, {"cbor", "8201f5"}, {"json", "7b226b223a317d"}, {"cbor", "a1616b01"}} {
+		n := len(d.hex) / 2
+		for pos := 0; pos < n; pos++ {
+			for _, zeros := range []int{99, 100} {
+				var c []int
+				for i := 0; i < n; i++ {
+					if i == pos {
+						for j := 0; j < zeros; j++ {
+							c = append(c, 0)
+						}
+					}
+					c = append(c, 1)
+				}
+				emit("sched %s %s %s 0", d.format, d.hex, schedStr(c))
+			}
+		}
+	}
 	// random documents, random schedules
 	nd := 3000
 	if tier == "thorough" {
